@@ -56,6 +56,38 @@ CHECKS["C10"] = dict(
     note="Trusted: TLC, projection. Exhaustive for lengths <= MaxN (evidence).",
     ref="5/C10", technique="TLA+ spec + TLC (exhaustive), returned boxes validated as an AdjSwap event log")
 
+CHECKS["C08"] = dict(
+    text="Mat.tla defines the category of matrices over a ring (product, Kronecker product, conjugate transpose, "
+         "identities, block-permutation swaps, nested cups/caps); TensorCat checks its categorical laws (units, "
+         "involution, interchange, naturality of swaps, both snake equations) with TLC on all shapes in bounds. "
+         "The model's register contents (generic non-symmetric Gaussian-integer arrays) are replayed through "
+         "discopy.Tensor and each result is compared exactly, inside TLC, with the specified matrix (J08).",
+    note="Trusted: TLC, numpy's exact integer arithmetic below 2^53. Dims over {1,2,3}.",
+    ref="5/C08", technique="TLA+ spec of the matrix category + TLC, replay of model states, exact trace validation")
+CHECKS["C09"] = dict(
+    text="Eval.tla defines the meaning of a rigid diagram as the layer-by-layer composite of whiskered box "
+         "tensors; TLC proves on all rigid diagrams in bounds that interchanges and snake yanks preserve it. "
+         "Dumped diagrams are evaluated by the real tensor.Functor for every prefix (the state of its "
+         "single-pass contraction loop), for every interchange neighbour, the normal form and the "
+         "tensor.Diagram.eval route, under three interpretations; TLC compares each tensor exactly (J09).",
+    note="Trusted: TLC, generic-array generator (same formula in Eval!Gen and adapter). Spiders/bubbles/sums not yet.",
+    ref="5/C09", technique="TLA+ evaluation machine + TLC, prefix-wise trace validation against the real functor")
+CHECKS["C19"] = dict(
+    text="Cartesian.tla: tuple-rewriting machine (ApplyBox) over a menu of functions of arities 0..3; TLC checks "
+         "arity preservation and the naturality squares in the model; every dumped diagram is called on input "
+         "tuples in the real library and TLC compares the returned tuple with box-by-box evaluation; Swap/Copy/"
+         "Discard(n) by their meaning; naturality squares on code values (J19).",
+    note="Trusted: TLC; function menu defined identically in TLA+ and in the adapter.",
+    ref="5/C19", technique="TLA+ spec + TLC, replay of dumped diagrams, trace validation")
+CHECKS["C20"] = dict(
+    text="Layout.tla transcribes make_space/add_box with exactly scaled integer coordinates and states the "
+         "planarity properties (one node per input/output/box/port, edges = wiring computed independently, strict "
+         "order of open wires at every height, vertical wires, downward edges, boxes strictly between neighbours); "
+         "TLC proves them for the algorithm on all shapes in bounds; the real diagram2nx output for dumped shapes "
+         "is judged by the same predicates (J20), both back-ends must render, diagramize must reproduce the wiring.",
+    note="Trusted: TLC, exact dyadic scaling (checked). Pixels are not judged.",
+    ref="5/C20", technique="TLA+ transcription + property predicates, TLC, trace validation of recorded layouts")
+
 NOT_YET = {}
 
 
